@@ -218,3 +218,56 @@ func Fold(l *chaingen.Ledger, rus []chain.RevertUpdate, aus []chain.ApplyUpdate)
 		l.Apply(au.ApplyUpdate, au.State.Index)
 	}
 }
+
+// VerifyAt checks every element proof of a ledger against the accumulator of cs
+// (core's own membership check, reached through ValidateTransactionElements):
+// siacoin, siafund and v2 contract elements as unspent leaves, chain index
+// elements as storage-proof indices. v1 contract elements cannot be posed to
+// that API and are covered by the comparison with the linear twin. Returns ""
+// or the first element whose proof does not verify.
+func VerifyAt(cs consensus.State, l *chaingen.Ledger) string {
+	for id, e := range l.SC {
+		if err := VerifySiacoin(cs, e); err != nil {
+			return fmt.Sprintf("siacoin element %v (leaf %d): %v", id, e.StateElement.LeafIndex, err)
+		}
+	}
+	for id, e := range l.SF {
+		txn := types.V2Transaction{SiafundInputs: []types.V2SiafundInput{{Parent: e.Copy()}}}
+		if err := cs.Elements.ValidateTransactionElements(txn); err != nil {
+			return fmt.Sprintf("siafund element %v (leaf %d): %v", id, e.StateElement.LeafIndex, err)
+		}
+	}
+	for id, e := range l.V2FC {
+		txn := types.V2Transaction{FileContractRevisions: []types.V2FileContractRevision{{Parent: e.Copy()}}}
+		if err := cs.Elements.ValidateTransactionElements(txn); err != nil {
+			return fmt.Sprintf("v2 file contract %v (leaf %d): %v", id, e.StateElement.LeafIndex, err)
+		}
+	}
+	for id, e := range l.CIE {
+		var dummy types.V2FileContractElement
+		dummy.StateElement.LeafIndex = types.UnassignedLeafIndex
+		txn := types.V2Transaction{FileContractResolutions: []types.V2FileContractResolution{{Parent: dummy, Resolution: &types.V2StorageProof{ProofIndex: e.Copy()}}}}
+		if err := cs.Elements.ValidateTransactionElements(txn); err != nil {
+			return fmt.Sprintf("chain index element %v (leaf %d): %v", id, e.StateElement.LeafIndex, err)
+		}
+	}
+	return ""
+}
+
+// VerifySiacoin checks one siacoin element's proof against the accumulator of cs.
+func VerifySiacoin(cs consensus.State, e types.SiacoinElement) error {
+	return cs.Elements.ValidateTransactionElements(types.V2Transaction{SiacoinInputs: []types.V2SiacoinInput{{Parent: e.Copy()}}})
+}
+
+// CompareLoose is Compare without leaf indices and proofs (ids, values and
+// contract contents only): what remains comparable with the linear twin when the
+// node's own state differs from the linear replay's.
+func CompareLoose(got, want *chaingen.Ledger) string {
+	if got.Tip != want.Tip {
+		return fmt.Sprintf("tip %v, expected %v", got.Tip, want.Tip)
+	}
+	if g, w := got.Digest(false), want.Digest(false); g != w {
+		return "elements differ:\n" + firstDiff(g, w)
+	}
+	return ""
+}
